@@ -23,6 +23,8 @@ for n in names:
         for p in props:
             out = subprocess.run(["./check", p], cwd=ROOT, capture_output=True, text=True)
             lines = [l for l in out.stdout.splitlines() if l.startswith(("VIOLATION", "OK", "KNOWN"))]
+            if out.returncode == 2:
+                print(n, p, "no check for this property yet"); continue
             detected = out.returncode != 0
             meta.setdefault("detected_by", {})[p] = {"detected": detected, "output": lines[:3], "stderr_tail": out.stderr.strip().splitlines()[-2:]}
             print(n, p, "DETECTED" if detected else "missed", lines[:1])
